@@ -2,7 +2,7 @@
 (***************************************************************************)
 (* Machine-checked (TLAPS) laws of the table operators for tables of ANY   *)
 (* size.  The proof system does not read modules with RECURSIVE operators, *)
-(* so the three definitions involved are restated here word for word;      *)
+(* so the definitions involved are restated here word for word;      *)
 (* MC_Lemmas checks with TLC (invariant ProofCopiesAgree) that the copies  *)
 (* equal the operators of BiomTable on every table of its universe.        *)
 (***************************************************************************)
@@ -67,4 +67,140 @@ THEOREM TransposeShaped ==
 <1>4. (t1.omd.has => Len(t1.omd.rows) = Len(t1.obs)) /\ (t1.smd.has => Len(t1.smd.rows) = Len(t1.samp))
   BY <1>1 DEF ShapedP
 <1> QED BY <1>3, <1>4 DEF ShapedP
+
+\* ---- permutations: IdxP, PickP, IsInjP restate Idx, Pick, IsInj of BiomTable
+
+IdxP(seq, e) == IF \E k \in 1..Len(seq) : seq[k] = e THEN CHOOSE k \in 1..Len(seq) : seq[k] = e ELSE 0
+PickP(s, ix) == [k \in 1..Len(ix) |-> s[ix[k]]]
+IsInjP(s) == \A i, j \in 1..Len(s) : s[i] = s[j] => i = j
+RangeP(s) == {s[k] : k \in 1..Len(s)}
+
+LEMMA IdxOfMember ==
+  ASSUME NEW S, NEW s \in Seq(S), NEW e \in RangeP(s)
+  PROVE  IdxP(s, e) \in 1..Len(s) /\ s[IdxP(s, e)] = e
+<1>1. \E k \in 1..Len(s) : s[k] = e
+  BY DEF RangeP
+<1>2. IdxP(s, e) = CHOOSE k \in 1..Len(s) : s[k] = e
+  BY <1>1 DEF IdxP
+<1> QED BY <1>1, <1>2
+
+LEMMA IdxOfOwnElement ==
+  ASSUME NEW S, NEW s \in Seq(S), IsInjP(s), NEW k \in 1..Len(s)
+  PROVE  IdxP(s, s[k]) = k
+<1>1. s[k] \in RangeP(s)
+  BY DEF RangeP
+<1>2. IdxP(s, s[k]) \in 1..Len(s) /\ s[IdxP(s, s[k])] = s[k]
+  BY <1>1, IdxOfMember
+<1> QED BY <1>2 DEF IsInjP
+
+\* re-indexing by a permutation (given as the sequence of IDs in the new order) and then by the original order
+\* restores any sequence attached to the axis
+THEOREM PermutationThenInverse ==
+  ASSUME NEW S, NEW ids \in Seq(S), NEW order \in Seq(S), Len(order) = Len(ids),
+         IsInjP(ids), IsInjP(order), RangeP(order) = RangeP(ids),
+         NEW T, NEW X \in Seq(T), Len(X) = Len(ids)
+  PROVE  LET p == [k \in 1..Len(order) |-> IdxP(ids, order[k])]
+             q == [k \in 1..Len(ids) |-> IdxP(PickP(ids, p), ids[k])]
+         IN /\ PickP(ids, p) = order
+            /\ PickP(PickP(X, p), q) = X
+<1> DEFINE n == Len(ids)
+           p == [k \in 1..Len(order) |-> IdxP(ids, order[k])]
+           q == [k \in 1..Len(ids) |-> IdxP(PickP(ids, p), ids[k])]
+<1>1. \A k \in 1..n : p[k] \in 1..n /\ ids[p[k]] = order[k]
+  <2> TAKE k \in 1..n
+  <2>1. order[k] \in RangeP(ids)
+    BY DEF RangeP
+  <2> QED BY <2>1, IdxOfMember
+<1>2. Len(p) = n /\ p \in Seq(1..n)
+  BY <1>1
+<1>3. PickP(ids, p) = order
+  <2>1. PickP(ids, p) = [k \in 1..n |-> ids[p[k]]]
+    BY <1>2 DEF PickP
+  <2>2. order = [k \in 1..n |-> order[k]]
+    OBVIOUS
+  <2> QED BY <2>1, <2>2, <1>1
+<1>4. \A k \in 1..n : q[k] \in 1..n /\ order[q[k]] = ids[k]
+  <2> TAKE k \in 1..n
+  <2>1. ids[k] \in RangeP(order)
+    BY DEF RangeP
+  <2>2. IdxP(order, ids[k]) \in 1..Len(order) /\ order[IdxP(order, ids[k])] = ids[k]
+    BY <2>1, IdxOfMember
+  <2> QED BY <2>2, <1>3
+<1>5. \A k \in 1..n : p[q[k]] = k
+  <2> TAKE k \in 1..n
+  <2>1. p[q[k]] = IdxP(ids, order[q[k]])
+    BY <1>4
+  <2>2. order[q[k]] = ids[k]
+    BY <1>4
+  <2> QED BY <2>1, <2>2, IdxOfOwnElement
+<1>6. PickP(PickP(X, p), q) = [k \in 1..n |-> X[p[q[k]]]]
+  <2>1. Len(q) = n
+    OBVIOUS
+  <2>2. PickP(X, p) = [k \in 1..n |-> X[p[k]]]
+    BY <1>2 DEF PickP
+  <2>3. \A k \in 1..n : PickP(X, p)[q[k]] = X[p[q[k]]]
+    BY <2>2, <1>4
+  <2> QED BY <2>1, <2>3 DEF PickP
+<1>7. X = [k \in 1..n |-> X[k]]
+  OBVIOUS
+<1> QED BY <1>3, <1>5, <1>6, <1>7
+
+\* ---- the same for a whole table, observation axis (restated TakeObs / MdPick / SortOrder of BiomTable)
+NoMdP == [has |-> FALSE, rows |-> <<>>]
+MdPickP(md, ix) == IF md.has THEN [has |-> TRUE, rows |-> PickP(md.rows, ix)] ELSE NoMdP
+TakeObsP(t, ix) == [t EXCEPT !.obs = PickP(t.obs, ix), !.mat = PickP(t.mat, ix), !.omd = MdPickP(t.omd, ix)]
+SortObsP(t, order) == TakeObsP(t, [k \in 1..Len(order) |-> IdxP(t.obs, order[k])])
+MdT(R) == [has : BOOLEAN, rows : Seq(R)]
+TableT(S, V, R) == [obs : Seq(S), samp : Seq(S), mat : Seq(Seq(V)), omd : MdT(R), smd : MdT(R), type : STRING, tid : STRING]
+\* metadata in the normal form of the model: absent metadata carries no rows
+MdNormal(md) == md.has \/ md = NoMdP
+
+THEOREM SortThenSortBack ==
+  ASSUME NEW S, NEW V, NEW R, NEW t \in TableT(S, V, R), NEW order \in Seq(S),
+         Len(t.mat) = Len(t.obs), t.omd.has => Len(t.omd.rows) = Len(t.obs), MdNormal(t.omd),
+         Len(order) = Len(t.obs), IsInjP(t.obs), IsInjP(order), RangeP(order) = RangeP(t.obs)
+  PROVE  SortObsP(SortObsP(t, order), t.obs) = t
+<1> DEFINE p == [k \in 1..Len(order) |-> IdxP(t.obs, order[k])]
+           t1 == SortObsP(t, order)
+           q == [k \in 1..Len(t.obs) |-> IdxP(t1.obs, t.obs[k])]
+<1>1. t1 = [t EXCEPT !.obs = PickP(t.obs, p), !.mat = PickP(t.mat, p), !.omd = MdPickP(t.omd, p)]
+  BY DEF SortObsP, TakeObsP
+<1>2. t1.obs = PickP(t.obs, p) /\ t1.mat = PickP(t.mat, p) /\ t1.omd = MdPickP(t.omd, p)
+      /\ t1.samp = t.samp /\ t1.smd = t.smd /\ t1.type = t.type /\ t1.tid = t.tid
+  BY <1>1 DEF TableT
+<1>3. PickP(t.obs, p) = order /\ PickP(PickP(t.obs, p), q) = t.obs
+  <2>1. t.obs \in Seq(S) /\ Len(t.obs) = Len(t.obs)
+    BY DEF TableT
+  <2> QED BY <2>1, <1>2, PermutationThenInverse
+<1>4. PickP(PickP(t.mat, p), q) = t.mat
+  <2>1. t.mat \in Seq(Seq(V)) /\ t.obs \in Seq(S)
+    BY DEF TableT
+  <2> QED BY <2>1, <1>2, PermutationThenInverse
+<1>5. MdPickP(MdPickP(t.omd, p), q) = t.omd
+  <2>1. CASE t.omd.has
+    <3>1. t.omd.rows \in Seq(R) /\ Len(t.omd.rows) = Len(t.obs) /\ t.obs \in Seq(S)
+      BY <2>1 DEF TableT, MdT
+    <3>2. PickP(PickP(t.omd.rows, p), q) = t.omd.rows
+      BY <3>1, <1>2, PermutationThenInverse
+    <3>3. MdPickP(t.omd, p) = [has |-> TRUE, rows |-> PickP(t.omd.rows, p)]
+      BY <2>1 DEF MdPickP
+    <3>4. MdPickP(MdPickP(t.omd, p), q) = [has |-> TRUE, rows |-> PickP(PickP(t.omd.rows, p), q)]
+      BY <3>3 DEF MdPickP
+    <3>5. t.omd = [has |-> TRUE, rows |-> t.omd.rows]
+      BY <2>1 DEF TableT, MdT
+    <3> QED BY <3>2, <3>4, <3>5
+  <2>2. CASE ~t.omd.has
+    <3>1. MdPickP(t.omd, p) = NoMdP
+      BY <2>2 DEF MdPickP
+    <3>2. MdPickP(NoMdP, q) = NoMdP
+      BY DEF MdPickP, NoMdP
+    <3> QED BY <3>1, <3>2, <2>2 DEF MdNormal
+  <2> QED BY <2>1, <2>2
+<1>6. SortObsP(t1, t.obs) = [t1 EXCEPT !.obs = PickP(t1.obs, q), !.mat = PickP(t1.mat, q), !.omd = MdPickP(t1.omd, q)]
+  BY DEF SortObsP, TakeObsP
+<1>7. SortObsP(t1, t.obs) = [t1 EXCEPT !.obs = t.obs, !.mat = t.mat, !.omd = t.omd]
+  BY <1>2, <1>3, <1>4, <1>5, <1>6
+<1>8. [t1 EXCEPT !.obs = t.obs, !.mat = t.mat, !.omd = t.omd] = t
+  BY <1>1 DEF TableT
+<1> QED BY <1>7, <1>8
 =============================================================================
